@@ -360,7 +360,7 @@ EmitCsr == (DoEmit /\ Fam = "csr") =>
                   subsets |-> SetToSeq({[rows |-> rs, Y1 |-> MatMul(RowSel(A, rs), X1, Len(rs), n, 1)] : rs \in subsets})])
 
 -----------------------------------------------------------------------------
-Init == c \in {d \in Cases : (HashD(d) % NParts) = Part}
+Init == c \in {d \in Cases : ((HashD(d) \div 9) % NParts) = Part}
 Next == FALSE /\ UNCHANGED c
 Spec == Init /\ [][Next]_vars
 =============================================================================
